@@ -22,6 +22,22 @@ chk("C02","exploration",
  "Liveness is decided only in bounded form (hang rule, W=4/8 s, two dumps). Cases whose stream was reset by gorums itself (observed through hooks) are set aside as disturbed, not judged.",
  "runtime monitoring: outcome oracle over recorded gated histories + bounded-progress hang rule","DESIGN.md 6 C02, 4.4","gated")
 
+chk("C11","exploration",
+ "Gated correctable executions (8 variants incl. server streams, per-node, custom type) with snapshots of raw/typed Get, Done and Watch(-1..max+1) taken from inside the next quorum-function invocation (logical time) and after completion, "
+ "compared with a reference model computed from the observed invocation log (publish on higher level, value identity, final on done/exhaustion/ctx end, stability, watcher release).",
+ "Value on Incomplete/ctx end is not pinned down by the property and not checked; completion waits use the bounded hang rule.",
+ "runtime monitoring: reference-model comparison of snapshots taken at logical instants of gated executions","DESIGN.md 6 C11","corr")
+chk("C16","exploration",
+ "Runs the real protoc-gen-gorums binary (built from the working tree) as a subprocess on hundreds/thousands of synthesized service descriptors: documented-legal lattice, every documented illegal input, identifier-collision inputs; "
+ "observes exit status/diagnostic/response, compiles accepted output with protoc-gen-go's output in one go build, and repeats each run to compare bytes.",
+ "Inputs are descriptors validated by protodesc.NewFiles (no protoc front end on this image). 'Compiles' = go build against /repo's runtime.",
+ "runtime monitoring of the generator: subprocess execution on generated inputs with compile oracle and repeat-run byte comparison","DESIGN.md 6 C16","vgen")
+chk("C17","exploration",
+ "Regenerates every committed generated file (tests/*, benchmark, examples/storage, dev/zorums_*, template_static.go via --bundle) with the working-tree plugin from the descriptor embedded in the sibling .pb.go and compares ASTs with comments stripped; "
+ "for committed, puppet and synthesized services compares the client Method literal, RegisterHandler key, runtime entry point and ServerStream flag of each emitted stub with the descriptor; behavioural binding conformance on the regenerated puppet service.",
+ "Descriptor literals are read with go/parser (source comments are not in them, hence comments are set aside as the property allows).",
+ "golden/AST comparison of regenerated output + binding extraction from emitted code + behavioural binding run","DESIGN.md 6 C17","vgen")
+
 m={
  "version":1,
  "setup_cmd":"./setup.sh",
